@@ -193,7 +193,21 @@ def run_op_with_interrupts(kind, prestate, op, C, npoints, rng):
         shutil.rmtree(base, ignore_errors=True)
 
 
-def run_op_with_images(kind, prep, op, C, cfgbackend=False, warm=(), interrupts=0, seed=0):
+def foreign_tmpdir(path):
+    """A fresh directory on another file system than `path' (deployments keep their data on a
+    disk and /tmp in memory), or None when this machine has only one writable file system."""
+    import tempfile
+    here = os.stat(path).st_dev
+    for cand in ("/dev/shm", "/run/shm", "/tmp", "/var/tmp", "/run"):
+        try:
+            if os.path.isdir(cand) and os.access(cand, os.W_OK) and os.stat(cand).st_dev != here:
+                return tempfile.mkdtemp(prefix="xtmp-", dir=cand)
+        except OSError:
+            continue
+    return None
+
+
+def run_op_with_images(kind, prep, op, C, cfgbackend=False, warm=(), interrupts=0, seed=0, foreign_tmp=False):
     """prep: list of operations establishing the prior contents; op: the operation whose
     crash points are enumerated.  Returns (records, gates)."""
     base = mkscratch("xc-")
@@ -220,11 +234,21 @@ def run_op_with_images(kind, prep, op, C, cfgbackend=False, warm=(), interrupts=
             irecords, ilines = run_op_with_interrupts(kind, path, op, C, interrupts, random.Random(seed))
         im = Imager(path, imgdir)
         err = ""
-        with im:
-            try:
-                apply_op(st, op)
-            except Exception as exc:
-                err = type(exc).__name__
+        import tempfile
+        ftmp = foreign_tmpdir(path) if foreign_tmp else None
+        old_tmp = tempfile.tempdir
+        if ftmp:
+            tempfile.tempdir = ftmp       # the system's temporary directory is on another file system
+        try:
+            with im:
+                try:
+                    apply_op(st, op)
+                except Exception as exc:
+                    err = type(exc).__name__
+        finally:
+            tempfile.tempdir = old_tmp
+            if ftmp:
+                shutil.rmtree(ftmp, ignore_errors=True)
         if op["t"] == "http":
             st.stop()
         final = observe(kind, path, C)
@@ -261,7 +285,7 @@ def run_op_with_images(kind, prep, op, C, cfgbackend=False, warm=(), interrupts=
         gates = [g for (_, g, _, _) in im.images if g in KEEP]
         return {"kind": kind, "cfgbackend": cfgbackend, "op": op, "pre": pre, "final": final,
                 "oper_error": err, "images": records + irecords, "gates": gates, "nevents": im.k,
-                "interrupt_points": len(irecords), "interrupt_lines": ilines}
+                "interrupt_points": len(irecords), "interrupt_lines": ilines, "foreign_tmp": bool(ftmp)}
     finally:
         shutil.rmtree(base, ignore_errors=True)
 
